@@ -167,6 +167,35 @@ def main():
     info["convertBuffer"] = int(m.group(1))
     if not re.search(r"fGotDecimalPoint\s*==\s*false\s*&&\s*theLength\s*<\s*theLongHackThreshold", ds):
         die("convertHelper fast-path test not found in the expected form")
+    # convertHelper fast path: 0 = `return double(WideStringToLong(theString));`
+    #                           1 = the long is kept, and when it is 0 the sign character decides between -0.0 and 0.0
+    body, _ = function_body(ds, r"convertHelper\s*\(.*?\)\s*\{", "convertHelper")
+    if re.search(r"return\s+double\s*\(\s*WideStringToLong\s*\(\s*theString\s*\)\s*\)\s*;", body):
+        info["fastPathKeepsSign"] = 0
+    elif (re.search(r"const\s+long\s+theLong\s*=\s*WideStringToLong\s*\(\s*theString\s*\)\s*;", body)
+          and re.search(r"if\s*\(\s*theLong\s*==\s*0\s*\)\s*\{\s*consumeWhitespace\s*\(\s*theString\s*,\s*theLength\s*\)\s*;\s*"
+                        r"return\s*\*theString\s*==\s*XalanUnicode::charHyphenMinus\s*\?\s*-0\.0\s*:\s*0\.0\s*;\s*\}\s*return\s+double\s*\(\s*theLong\s*\)\s*;", body)):
+        info["fastPathKeepsSign"] = 1
+    else:
+        die("convertHelper fast path is in neither of the two transcribed forms")
+    # DoubleSupport::round: 0 = long(x + 0.5) / modf form, 1 = modf + ceil/floor form
+    body, _ = function_body(ds, r"DoubleSupport::round\s*\(\s*double\s+theValue\s*\)\s*\{", "DoubleSupport::round")
+    flat = re.sub(r"\s+", " ", body)
+    v0 = ("return long(theValue + 0.5);" in flat and "fracPart == -0.5 ? theValue + 0.5 : theValue - 0.5;" in flat
+          and "return long(theAdjustedValue);" in flat and "else if (theValue == 0) { return 0.0; }" in flat
+          and "if (theValue < LONG_MAX)" in flat and "if (theAdjustedValue > LONG_MIN)" in flat)
+    v1 = ("else if (theValue == 0) { return theValue; }" in flat
+          and "const double fracPart = std::modf(theValue, &intPart);" in flat
+          and "if (theValue > 0) { return fracPart >= 0.5 ? std::ceil(theValue) : intPart; }" in flat
+          and "else { return fracPart < -0.5 ? std::floor(theValue) : intPart; }" in flat
+          and "long(" not in flat)
+    if v0 == v1:
+        die("DoubleSupport::round is in neither of the two transcribed forms")
+    info["roundVariant"] = 1 if v1 else 0
+    hp = strip_comments(open(os.path.join(common.REPO, "src/xalanc/PlatformSupport/DoubleSupport.hpp"), encoding="utf-8", errors="replace").read())
+    hflat = re.sub(r"\s+", " ", hp)
+    if "ceiling(double theValue) { return std::ceil(theValue); }" not in hflat or "floor(double theValue) { return std::floor(theValue); }" not in hflat:
+        die("DoubleSupport::floor / ceiling are no longer std::floor / std::ceil")
 
     def lst(s):
         return "[" + ", ".join(str(ord(c)) for c in s) + "]"
@@ -199,6 +228,10 @@ def zeroString : List Nat := %s
 def longHackThreshold : Nat := %d
 /-- `theBufferSize` in `convertHelper` -/
 def convertBuffer : Nat := %d
+/-- fast path of `convertHelper`: 0 = `double(WideStringToLong(s))`, 1 = the same, but a zero result takes its sign from a leading '-' -/
+def fastPathKeepsSign : Nat := %d
+/-- `DoubleSupport::round`: 0 = `long(x + 0.5)` form, 1 = `modf` + `ceil`/`floor` form -/
+def roundVariant : Nat := %d
 
 end XalanModel.Generated.C18
 """ % (os.path.relpath(DSH, common.REPO), os.path.relpath(DS, common.REPO),
@@ -207,7 +240,7 @@ end XalanModel.Generated.C18
        info["toCharacters"]["buffer"], info["toCharacters"]["bounded"], info["toCharacters"]["result"],
        info["scalarBuffer"],
        lst(strs["theNaNString"]), lst(strs["thePositiveInfinityString"]), lst(strs["theNegativeInfinityString"]),
-       lst(strs["theZeroString"]), info["longHackThreshold"], info["convertBuffer"])
+       lst(strs["theZeroString"]), info["longHackThreshold"], info["convertBuffer"], info["fastPathKeepsSign"], info["roundVariant"])
     os.makedirs(common.GEN, exist_ok=True)
     p = os.path.join(common.GEN, "C18_NumberConsts.lean")
     old = open(p).read() if os.path.exists(p) else None
@@ -216,9 +249,9 @@ end XalanModel.Generated.C18
             f.write(out)
     with open(os.path.join(common.GEN, "C18_NumberConsts.json"), "w") as f:
         json.dump(info, f, indent=1)
-    print("c18_number_consts: MAX_PRINTF_DIGITS=%d precisions=%d..%d (%d) buffer=%d bounded=%d longHack=%d" % (
+    print("c18_number_consts: MAX_PRINTF_DIGITS=%d precisions=%d..%d (%d) buffer=%d bounded=%d longHack=%d keepSign=%d roundVariant=%d" % (
         info["MAX_PRINTF_DIGITS"], precs[0], precs[-1], len(precs), info["toDOMString"]["buffer"],
-        info["toDOMString"]["bounded"], info["longHackThreshold"]))
+        info["toDOMString"]["bounded"], info["longHackThreshold"], info["fastPathKeepsSign"], info["roundVariant"]))
 
 
 if __name__ == "__main__":
